@@ -1,4 +1,19 @@
-"""C02/C06/C11/C07/C15/C17: component contracts of the decompressor igzip/igzip_inflate.c."""
+"""C02/C06/C11/C07/C15/C17: component contracts of the decompressor igzip/igzip_inflate.c.
+
+Contracts: contracts/igzip_inflate_parts.h (one -DINF_<GROUP> per harness TU), assumed contracts / stubs:
+contracts/stubs_inflate.h, native replay: replay/inflate_parts.c.
+
+Tractability notes (CBMC 6.11, measured here):
+ * --object-bits 12 makes dfcc's per-object bookkeeping cost ~10 M clauses per harness; 8 (9) bits are used
+   wherever the harness has < 256 (512) objects.
+ * A byte store at a *symbolic* offset into the 87 KB struct inflate_state (tmp_in_buffer/tmp_out_buffer) is
+   rebuilt as a whole-struct update and does not finish: the trailer checkers are therefore verified by
+   exhaustive enumeration of the literal (read_in_length, tmp_in_size) pairs in an un-instrumented harness,
+   and memcpy into the struct with symbolic length is a recording stub (set_dict, read_header_stateful).
+ * Stores through a loop-carried pointer under a dfcc loop contract (byte_copy, set_codes) exhaust memory in
+   dfcc's write-set check: those loops are unwound (complete where the bound is a constant of the code or of
+   the DEFLATE format, otherwise labelled bounded).
+"""
 from runner import H
 
 INF = ['igzip/igzip_inflate.c']
@@ -12,34 +27,164 @@ CK_MEMCPY = 'memcpy modelled as a byte loop in harness/igzip/inflate_cksum.c (CB
 
 HARNESSES = [
     H('inflate_in_load', ['C02'], 'igzip/inflate_bits.c', INF, enforce='inflate_in_load', defines=['INF_BITS'],
-      also=['C05', 'C06', 'C15'], timeout=600, expect=['postcondition', 'unwind'], unwind=9, bounds=BITS_BOUND),
+      also=['C05', 'C06', 'C15'], timeout=600, object_bits=8, expect=['postcondition', 'unwind'], unwind=9, bounds=BITS_BOUND),
     H('inflate_in_read_bits_unsafe', ['C02'], 'igzip/inflate_bits.c', INF, enforce='inflate_in_read_bits_unsafe',
       defines=['INF_BITS'], also=['C05', 'C06', 'C15'], timeout=600, expect=['postcondition']),
     H('inflate_in_read_bits', ['C02'], 'igzip/inflate_bits.c', INF, enforce='inflate_in_read_bits',
-      defines=['INF_BITS'], also=['C05', 'C06', 'C15'], timeout=600, expect=['postcondition', 'unwind'], unwind=9,
+      defines=['INF_BITS'], also=['C05', 'C06', 'C15'], timeout=900, object_bits=8, expect=['postcondition', 'unwind'], unwind=9,
       bounds=BITS_BOUND, solver='cadical'),
     H('decode_literal_block', ['C02', 'C06', 'C07'], 'igzip/inflate_lit.c', INF, enforce='decode_literal_block',
-      defines=['INF_LIT'], also=['C05', 'C15'], timeout=900, expect=['postcondition', 'assigns']),
+      defines=['INF_LIT'], also=['C05', 'C15'], timeout=900, object_bits=8, expect=['postcondition', 'assigns'],
+      replay=('inflate_parts.c', 'decode_literal_block')),
 ] + [
-    H('check_%s_checksum_all' % w, ['C11', 'C07'], 'igzip/inflate_cksum.c', INF,
+    H('check_%s_checksum_all%d' % (w, k), ['C11', 'C07'], 'igzip/inflate_cksum.c', INF,
       defines=['INF_CKSUM', 'INF_CK_MEMCPY', 'INF_CK_PLAIN'], also=['C02', 'C05', 'C06', 'C15'], timeout=1800,
-      functions=['check_%s_checksum' % w], expect=['assertion', 'unwind'], unwind=9, bounds=CK_BOUND,
-      properties=[r'^h_check_', r'^check_%s_checksum\.' % w, r'^fixed_size_read\.', r'^memcpy\.', r'^load_', r'^store_'],
+      functions=['check_%s_checksum' % w], expect=['assertion'], unwind=9, bounds=CK_BOUND,
+      properties=[r'^h_check_', r'^ck_ghosts\.', r'^check_%s_checksum\.' % w, r'^fixed_size_read\.', r'^memcpy\.', r'^load_', r'^store_'],
       trusted=[CK_MEMCPY], replay=('inflate_parts.c', 'check_%s_checksum' % w))
-    for w in ('gzip', 'zlib')
+    for w, n in (('gzip', 3), ('zlib', 2)) for k in range(n)
 ] + [
     H('check_%s_checksum_c%d' % (w, k), ['C11'], 'igzip/inflate_cksum.c', INF, enforce='check_%s_checksum' % w,
       defines=['INF_CKSUM', 'INF_CK_MEMCPY'], also=['C05', 'C15'], timeout=600,
-      expect=['postcondition', 'assigns', 'unwind'], unwind=9, object_bits=8, solver='cadical',
-      bounds='one literal pair (read_in_length, tmp_in_size) per harness: dfcc frame check; the exhaustive statement is check_%s_checksum_all' % w,
+      expect=['postcondition', 'assigns', 'unwind'], unwind=9, object_bits=8,
+      bounds='one literal pair (read_in_length, tmp_in_size) per harness: dfcc frame check; the exhaustive statement is check_%s_checksum_all<k>' % w,
       trusted=[CK_MEMCPY], replay=('inflate_parts.c', 'check_%s_checksum' % w))
     for w in ('gzip', 'zlib') for k in range(3)
 ] + [
     H('finalize_adler32', ['C11'], 'igzip/inflate_cksum.c', INF, enforce='finalize_adler32',
-      defines=['INF_CKSUM'], also=['C05', 'C15'], timeout=300, expect=['postcondition']),
+      defines=['INF_CKSUM'], also=['C05', 'C15'], timeout=300, expect=['postcondition'],
+      replay=('inflate_parts.c', 'finalize_adler32')),
     H('inflate_update_checksum', ['C11'], 'igzip/inflate_cksum.c', INF, enforce='update_checksum', entry='h_update_checksum',
       replace=['crc32_gzip_refl', 'isal_adler32_bam1'], defines=['INF_CKSUM'], also=['C05', 'C15'], timeout=300,
       expect=['postcondition'],
       trusted=['crc32_gzip_refl (NASM, dispatched): recorded uninterpreted function (contracts/stubs_inflate.h)',
                'isal_adler32_bam1 (igzip/igzip.c over the NASM isal_adler32): recorded uninterpreted function, result low half < 65521']),
+] + [
+    # read_header: one contract, its obligations split over four solver runs (all obligations in one SAT query
+    # do not finish in 15 min, each group does in 1-2 min): frame + safety + return codes / BFINAL+BTYPE
+    # dispatch / stored block.
+    H('read_header_' + tag, ['C02', 'C06'], 'igzip/inflate_hdr.c', INF, enforce='read_header', entry='h_read_header',
+      replace=['setup_static_header', 'setup_dynamic_header'], defines=['INF_HDR'], also=['C05', 'C15'],
+      timeout=1500, expect=['postcondition'] + (['assigns'] if tag == 'frame' else []), unwind=20, object_bits=8,
+      bounds=BITS_BOUND, properties=[rx], min_obligations=3,
+      trusted=['setup_static_header / setup_dynamic_header: frame-only ASSUMED contracts (contracts/stubs_inflate.h) when seen from read_header'])
+    for tag, rx in (('frame', r'^(?!read_header\.postcondition\.)|^read_header\.postcondition\.1$'),
+                    ('dispatch', r'^read_header\.postcondition\.(2|3|4|5|6|7)$'),
+                    ('stored', r'^read_header\.postcondition\.(8|9|10|11)$'))
+] + [
+    H('bit_reverse2', ['C02'], 'igzip/inflate_codes.c', INF, enforce='bit_reverse2', defines=['INF_CODES'],
+      also=['C05', 'C15'], timeout=300, expect=['postcondition'], replay=('inflate_parts.c', 'bit_reverse2')),
+] + [
+    H('set_codes_%d' % n, ['C02', 'C06'], 'igzip/inflate_codes.c', INF, enforce='set_codes', defines=['INF_CODES'],
+      also=['C05', 'C15'], timeout=1500, expect=['postcondition', 'assigns'], unwind=33, object_bits=8, solver='cadical',
+      replay=('inflate_parts.c', 'set_codes'),
+      bounds='table_length == %d, one of the three call-site constants (19, 30, 32); both loops fully unwound with unwinding assertions: complete for this call site' % n,
+      trusted=['precondition "every code length <= 15" instantiated per visited entry by HARNESS_ASSUME in the loop hook',
+               'RFC 1951 3.2.2 steps 2 and 3 run as ghost code in the E_/H_ hooks (they are the specification)'])
+    for n in (19, 30, 32)
+] + [
+    H('set_codes_kraft_lemma', ['C06'], 'igzip/inflate_codes.c', INF, defines=['INF_CODES'], timeout=1200,
+      expect=['assertion'], min_obligations=2, solver='cadical',
+      properties=[r'^h_set_codes_kraft_lemma']),
+    H('isal_inflate_init', ['C15'], 'igzip/inflate_init.c', INF, enforce='isal_inflate_init', defines=['INF_INIT'],
+      also=['C05'], timeout=300, expect=['postcondition', 'assigns']),
+    H('isal_inflate_reset', ['C15'], 'igzip/inflate_init.c', INF, enforce='isal_inflate_reset', defines=['INF_INIT'],
+      also=['C05'], timeout=300, expect=['postcondition', 'assigns']),
+    H('isal_inflate_set_dict', ['C17'], 'igzip/inflate_init.c', INF, enforce='isal_inflate_set_dict',
+      replace=['memcpy'], defines=['INF_INIT', 'INF_MEMCPY_REC'], also=['C05', 'C15'], timeout=900, object_bits=8,
+      expect=['postcondition', 'assigns', 'precondition'],
+      trusted=['memcpy: recording stub (contracts/stubs_inflate.h); its C11 semantics for the recorded (dst, src, n) is assumed, '
+               'its precondition (dst writable / src readable for n bytes) is proved at the call site']),
+] + [
+    H('byte_copy_' + tag, ['C02'], 'igzip/inflate_init.c', INF, defines=['INF_COPY_PLAIN'],
+      functions=['byte_copy'], also=['C05', 'C06'], timeout=900 if tag == 'short' else 7200, expect=['assertion'], unwind=ml + 1,
+      min_obligations=3, properties=[r'^h_byte_copy_%s\.' % tag, r'^byte_copy\.'], kind='bounded', bounds=txt,
+      tier='quick' if tag == 'short' else 'thorough',
+      replay=('inflate_parts.c', 'byte_copy'))
+    for tag, ml, txt in (('short', 16, 'repeat_length <= 16, any distance <= 2^20 (unwinding-bounded)'),
+                         ('overlap', 258, 'every repeat_length <= 258, literal distances 1..4 (parameter-bounded)'))
+] + [
+    H('read_header_stateful', ['C07'], 'igzip/inflate_hdr.c', INF, enforce='read_header_stateful',
+      replace=['read_header', 'memcpy'], defines=['INF_HDRS', 'INF_MEMCPY_REC'], also=['C05', 'C06', 'C15'],
+      timeout=900, object_bits=8, expect=['postcondition', 'assigns', 'precondition'],
+      trusted=['read_header: ASSUMED interface contract when called on tmp_in_buffer (contracts/stubs_inflate.h); its non-aliased form is proved by read_header_*',
+               'ISAL_END_INPUT impossible with >= 328 input bytes (max dynamic header 2283 bits): assumed in that stub',
+               'memcpy: recording stub; its precondition (dst writable / src readable for n bytes) is proved at both call sites']),
+    H('setup_dynamic_header_prefix', ['C06'], 'igzip/inflate_dyn.c', INF, enforce='setup_dynamic_header', entry='h_setup_dynamic_header',
+      replace=['header_matches_pregen', 'setup_pregen_header', 'set_codes', 'set_and_expand_lit_len_huffcode',
+               'make_inflate_huff_code_header', 'make_inflate_huff_code_dist', 'make_inflate_huff_code_lit_len',
+               'decode_next_header'],
+      defines=['INF_DYN', 'DYN_MAX_SYMS=1'], also=['C02', 'C05', 'C15'], timeout=7200, object_bits=9, unwind=20, kind='bounded', tier='thorough',
+      unwindset=['setup_dynamic_header_wrapped_for_contract_checking.3:3', 'setup_dynamic_header_wrapped_for_contract_checking.2:7'],
+      expect=['postcondition', 'assigns'],
+      bounds='the five early-exit postconditions (short input, HLIT/HDIST > 29, all-zero / rejected code-length code) are decided before the '
+             'code-length decoding loop and hold without bound; everything about the loop is explored for at most 1 code-length symbol '
+             '(decode_next_header stand-in reports exhausted input afterwards); loops unwound 20 times with unwinding assertions',
+      trusted=['set_codes: recording stub (verdict unconstrained); table builders make_inflate_huff_code_*, set_and_expand_lit_len_huffcode: '
+               'frame-only ASSUMED contracts; decode_next_header: bounded stand-in; header_matches_pregen stubbed to 0 (contracts/stubs_inflate.h)']),
 ]
+
+PROP_TEXT = {
+    'C02': {
+        'assumptions': [
+            'bit reader / read_header / decode_literal_block: the caller owns exactly avail_in input and avail_out output bytes '
+            '(is_fresh), avail_in <= 2^32-9 (see possible defect: uint32 wrap of avail_in + buffered bytes)',
+            'WF_inflate_bits: -64 <= read_in_length <= 64, negative only with avail_in == 0, bits of read_in above '
+            'read_in_length are a subset of the not yet consumed input bits (invariant of the 64-bit fast refill path; '
+            're-established by every contracted operation)',
+            'read_header: setup_static_header / setup_dynamic_header replaced by frame-only ASSUMED contracts',
+            'set_codes: every code length <= 15 (instantiated per visited entry), table_length one of the call-site constants 19/30/32',
+            'byte_copy: bounded stand-ins only (length <= 16 any distance; length <= 258 with distance 1..4)',
+        ],
+        'not_decided': [
+            'end-to-end decoding of a stream (isal_inflate / isal_inflate_stateless state machines, tmp_out_buffer window)',
+            'make_inflate_huff_code_lit_len/_dist/_header (lookup-table construction, multi-symbol packing), '
+            'set_and_expand_lit_len_huffcode, decode_next_lit_len/_dist/_header',
+            'setup_dynamic_header code-length decoding loop beyond one symbol (bounded stand-in, thorough tier)',
+            'decode_huffman_code_block_stateless_base and the final input position in isal_inflate_stateless: other family (reg_igzip_decode.py)',
+            'assembly decode kernels (decode_huffman_code_block_stateless via multibinary)',
+        ]},
+    'C06': {
+        'assumptions': [
+            'contracts are stated over arbitrary input bytes / arbitrary state contents subject to WF_inflate only',
+            'set_codes: ISAL_INVALID_BLOCK iff next_code[15] + count[15] > 2^15, and that test is the Kraft inequality '
+            'sum count[i]*2^(15-i) > 2^15 (lemma set_codes_kraft_lemma)',
+            'setup_dynamic_header prefix: callees are stubs (recording set_codes, frame-only table builders, bounded decode_next_header)',
+        ],
+        'not_decided': [
+            'whole-stream statement "completion is reported only for decodable streams"; progress across calls',
+            'distance / look-back validation and undefined-symbol rejection in the decode loop (other family)',
+            'repeat-code overflow and missing end-of-block checks inside the code-length loop beyond the bounded stand-in',
+        ]},
+    'C11': {
+        'assumptions': [
+            'CK_PRE: bytes are parked in tmp_in_buffer only by an earlier incomplete call of the same checker '
+            '(tmp_in_size < trailer length, and tmp_in_size > 0 implies read_in_length < 8)',
+            'avail_in <= 2^32-9 (see possible defect in fixed_size_read: uint32 wrap of avail_in + tmp_in_size)',
+            'memcpy modelled as a byte loop in the trailer harnesses (n <= 8 proved by unwinding assertion)',
+            'crc32_gzip_refl / isal_adler32_bam1 are recorded uninterpreted functions (their _base twins: C04); '
+            'the low half of isal_adler32_bam1 is reduced (< 65521)',
+        ],
+        'not_decided': [
+            'that update_checksum is called over exactly the delivered bytes on every path of isal_inflate / isal_inflate_stateless',
+            'producer side (igzip.c write_trailer): other family',
+        ]},
+    'C07': {
+        'assumptions': [
+            'read_header_stateful: read_header is an ASSUMED interface contract when it parses tmp_in_buffer (aliasing with the state); '
+            'ISAL_END_INPUT is assumed impossible once 328 bytes are available (max dynamic header 2283 bits); memcpy is a recording stub',
+        ],
+        'not_decided': [
+            'the induction over call histories (each progress contract is per call)',
+            'isal_inflate tmp_out_buffer staging and equality of streaming and one-shot results',
+        ]},
+    'C15': {
+        'assumptions': ['sequential semantics (CBMC contracts); reset/init postconditions hold for arbitrary previous contents of the state'],
+        'not_decided': ['fields inside lit_huff_code/dist_huff_code/tmp_*_buffer are not reset by design (guarded by block_state / sizes): not proved here'],
+    },
+    'C17': {
+        'assumptions': ['isal_inflate_set_dict: memcpy is a recording stub: the exact (dst, src, n) of the single copy and its memory safety are '
+                        'proved, that it makes tmp_out_buffer[0..n) equal to the last n dictionary bytes is memcpy semantics (assumed)'],
+        'not_decided': ['round trip with dictionaries; use of dict_length by isal_inflate'],
+    },
+}
